@@ -337,11 +337,23 @@ namespace nmtools::utils
                 bool equal = true;
                 // TODO: static assert whenever possible
                 // NOTE: use assert instead of exception, to support compile with -fno-exceptions
-                nmtools_cassert ( (nm_size_t)len(t)==(nm_size_t)len(u)
-                    , "mismatched dimension"
-                );
+                // index arrays of different length are not equal (no assert: the comparison is total)
+                if ((nm_size_t)len(t)!=(nm_size_t)len(u)) {
+                    return false;
+                }
+                // two fixed-size index arrays of different size: known at compile-time, must not index past the shorter one
+                constexpr auto fixed_size_mismatch = [](){
+                    if constexpr (meta::is_fixed_index_array_v<T> && meta::is_fixed_index_array_v<U>) {
+                        return (nm_size_t)meta::fixed_index_array_size_v<T> != (nm_size_t)meta::fixed_index_array_size_v<U>;
+                    } else {
+                        return false;
+                    }
+                }();
+                if constexpr (fixed_size_mismatch) {
+                    return false;
+                }
                 // prefer fixed size for indexing to allow constant index
-                if constexpr (meta::is_fixed_index_array_v<T>) {
+                else if constexpr (meta::is_fixed_index_array_v<T>) {
                     constexpr auto N = meta::fixed_index_array_size_v<T>;
                     using t_t = meta::get_element_or_common_type_t<T>;
                     using u_t = meta::get_element_or_common_type_t<U>;
@@ -399,12 +411,17 @@ namespace nmtools::utils
                     // TODO: static assert whenever possible
                     // NOTE: use assert instead of exception, to support compile with -fno-exceptions
                     // TODO: use maybe type
-                    nmtools_cassert( ((common_t)t_dim == (common_t)u_dim)
-                        , "dimension mismatch for isequal"
-                    );
+                    // arrays of different dimension are not equal (no assert: the comparison is total)
+                    if ((common_t)t_dim != (common_t)u_dim) {
+                        return false;
+                    }
                 }
                 auto t_shape = ::nmtools::shape(t);
                 auto u_shape = ::nmtools::shape(u);
+                // same dimension but different shape: not equal, even if the flat contents coincide
+                if (!isequal(t_shape,u_shape)) {
+                    return false;
+                }
                 auto t_indices = ndindex(t_shape);
                 auto u_indices = ndindex(u_shape);
                 // TODO: static assert whenever possible
@@ -412,9 +429,9 @@ namespace nmtools::utils
                 auto u_size = u_indices.size();
                 {
                     using common_t [[maybe_unused]] = meta::promote_index_t<decltype(t_size),decltype(u_size)>;
-                    nmtools_cassert( ((common_t)t_size == (common_t)u_size)
-                        , "size mismatch for isequal"
-                    );
+                    if ((common_t)t_size != (common_t)u_size) {
+                        return false;
+                    }
                 }
                 using t_t = meta::get_element_or_common_type_t<T>;
                 using u_t = meta::get_element_or_common_type_t<U>;
